@@ -123,12 +123,11 @@ Proof.
   intros l H; discriminate H.
 Qed.
 
-(* duplicated declared levels break "every column holds what its label says": the column labelled
-   a[u] is 0 on a row whose value is u *)
-Example ex_duplicate_levels_counterexample :
+(* duplicated declared levels are refused (pd.Categorical(data, categories=levels) raises ValueError);
+   accepting them would break "every column holds what its label says" *)
+Example ex_duplicate_levels_refused :
   let t := TC "a" (CVar (NStr "a") None) KCategoric (PBox false [Some "u"] None (Some ["u";"u"])) [] false None in
-  let d := get dc0 (set_data_comp t false 1) in
-  (dc_labels d, map show_row (dc_rows d)) = (Some ["a[u]"], [["0"]]).
+  set_data_comp t false 1 = Err EValue.
 Proof. vm_compute. reflexivity. Qed.
 
 (** C *)
